@@ -83,7 +83,7 @@ int main(void) {
   if (REF_SUCCESS != ref_node_create(&kn, ref_mpi)) return 3;
   for (i = 0; i < 4; i++) {
     REF_INT node, c;
-    if (REF_SUCCESS != ref_node_add(kn, i, &node) || node != i) return 3;
+    if (REF_SUCCESS != ref_node_add(kn, (REF_GLOB)(3 * i + 5), &node) || node != i) return 3;
     for (c = 0; c < REF_NODE_REAL_PER; c++) ref_node_real(kn, c, node) = 0.0;
   }
   default_min_volume = ref_node_min_volume(kn);
